@@ -7,6 +7,7 @@ import (
 	"encoding/hex"
 	"fmt"
 	"strconv"
+	"unicode/utf8"
 
 	"github.com/cloudspannerecosystem/memefish/token"
 )
@@ -136,3 +137,5 @@ func verifCutErrors(on bool) {}
 
 // extra harness bodies registered for the corpus validation test
 var verifCorpusBodies = map[string]func(string, int){}
+
+func verifDecodeRune(s string, real bool) (rune, int) { return utf8.DecodeRuneInString(s) }
